@@ -63,6 +63,7 @@ def unfr(p):
 
 
 _BASIS_CACHE = {}
+_PT = Parameter("t")
 
 
 def make_basis(key):
@@ -74,7 +75,7 @@ def make_basis(key):
 
 def make_gate(name, params):
     if name == "rzzp":  # unbound parameter: from_instruction refuses it
-        return RZZGate(Parameter("t"))
+        return RZZGate(_PT)
     cls = G1.get(name) or G2.get(name) or G3[name]
     return cls(*[unfr(p) for p in params])
 
@@ -556,11 +557,16 @@ def generate(rng, tier, outdir):
         n = int(rng.integers(1, 7))
         desc = dict(qregs=[["reg", n]], cregs=[], loose_clbits=0, items=[])
         uu = [f"_uuid={k}" for k in range(int(rng.integers(1, 4)))]
+        used_pairs = set()
         for _ in range(int(rng.integers(0, 10))):
             r = rng.random()
             qn = int(rng.integers(0, n))
             if r < 0.6:
-                desc["items"].append(["ubarrier", qn, pick(rng, uu)])
+                u = pick(rng, uu)
+                if (qn, u) in used_pairs:  # one uuid never repeats a qubit (a barrier has distinct qubits)
+                    continue
+                used_pairs.add((qn, u))
+                desc["items"].append(["ubarrier", qn, u])
             elif r < 0.7:
                 desc["items"].append(["barrier", [qn], pick(rng, [None, "foo"])])
             elif r < 0.8 and n > 1:
@@ -778,19 +784,21 @@ def _wires(n, circ):
     return [[_norm(i, q) for i in circ if q in i["qs"]] for q in range(n)]
 
 
-def _back_map(subs, qmap):
-    """subcircuit instructions re-expressed on the original qubit indices, via qubit_map"""
+def _back_map(subs, qmap, cl=None):
+    """subcircuit instructions re-expressed on the original qubit indices, via qubit_map; subcircuits carry only the
+    classical registers, so a clbit index is translated back through the list `cl` of register bits"""
     inv = {}
     for q, e in enumerate(qmap):
         if e is not None:
             inv[(e[0], e[1])] = q
     out = {}
     for l, nq, c in subs:
-        out[l] = [dict(op=i["op"], qs=[inv[(l, x)] for x in i["qs"]], cs=i["cs"]) for i in c]
+        out[l] = [dict(op=i["op"], qs=[inv[(l, x)] for x in i["qs"]], cs=[(cl[x] if cl is not None else x) for x in i["cs"]])
+                  for i in c]
     return out
 
 
-def _structure_checks(n, orig, labels_ids, subs, qmap, problems):
+def _structure_checks(n, orig, labels_ids, subs, qmap, problems, cl=None):
     """orig: canonical circuit the subcircuits must recompose to; labels_ids: list of label id / None per qubit."""
     keys = [l for l, _, _ in subs]
     want_keys = []
@@ -826,8 +834,8 @@ def _structure_checks(n, orig, labels_ids, subs, qmap, problems):
     if problems:
         return
     try:
-        back = _back_map(subs, qmap)
-    except KeyError as e:
+        back = _back_map(subs, qmap, cl)
+    except (KeyError, IndexError) as e:
         problems.append(f"a subcircuit uses a qubit index outside its qubit_map range: {e}")
         return
     # every instruction in exactly one subcircuit, per-wire order preserved (barriers per wire)
@@ -943,6 +951,12 @@ def judge(case):
         return dict(violates=not ok, detail="per-wire sequences / one-qubit barriers after splitting")
     if k == "combine":
         n = nqubits(case["desc"])
+        pos = {}
+        for j, i in enumerate(circ):
+            if i["op"][0] == "barrier" and i["op"][1] is not None and len(i["qs"]) == 1:
+                pos.setdefault(i["op"][1], []).append(j)
+        if any(v != list(range(v[0], v[0] + len(v))) for v in pos.values()):
+            return dict(violates=False, detail="uuid groups not contiguous: never produced by separate_circuit; property silent")
         ok = _wires(n, circ) == _wires(n, impl[1])
         return dict(violates=not ok, detail="per-wire sequences after re-joining barriers")
     if k == "labels":
@@ -995,7 +1009,10 @@ def judge(case):
                 loose = any(c not in sum(_cregs_of(case["desc"]), []) for i in circ for c in i["cs"])
                 return dict(violates=not loose, detail=f"valid request failed: {impl}")
         subs, qmap = impl[1], impl[2]
-        _structure_checks(n, circ, lids, subs, qmap, problems)
+        cl = []
+        for r in _cregs_of(case["desc"]):
+            cl.extend(x for x in r if x not in cl)
+        _structure_checks(n, circ, lids, subs, qmap, problems, cl)
         opchk = "skipped"
         if not problems:
             opchk = _operator_check(n, circ, lids, subs, qmap, problems)
@@ -1160,12 +1177,14 @@ def rerun(case):
         qc = build(desc)
         ctx = CircCtx()
         case["circ"] = ctx.canon_circuit(qc)
+        oracle_tables(ctx, qc, case["circ"])
         r = call_canon(partition_circuit_qubits, qc, labels)
         case["impl"] = [r[0], ctx.canon_circuit(r[1]) if r[0] == "ok" else r[1]]
     elif k == "cut":
         qc = build(desc)
         ctx = CircCtx()
         case["circ"] = ctx.canon_circuit(qc)
+        oracle_tables(ctx, qc, case["circ"])
         r = call_canon(cut_gates, qc, case["ids"])
         case["impl"] = [r[0], [ctx.canon_circuit(r[1][0]), [ctx.basis_id(b) for b in r[1][1]]] if r[0] == "ok" else r[1]]
     elif k == "problem":
